@@ -32,9 +32,16 @@ def stepLine (u : Unit) (line : String) : Unit × String :=
     match runBlas name kv kb with
     | none => (u, "no-routine")
     | some (.reject c) => (u, "reject " ++ c)
-    | some .none => (u, s!"ok x={showBuf x} y={showBuf y} A={showBuf A} B={showBuf B} C={showBuf C}")
-    | some (.call vals) =>
-      let f := fun (k : String) => match ((callNames name).zip vals).find? (·.1 == k) with | some p => p.2 | none => 0
+    | some oc =>
+      -- `.call vals`: the reference operation on the values the checks pass on.  `.none` (early return, "nothing to do"): the reference
+      -- operation on the values as given (leading dimensions defaulted) - an early return is only right where that operation is the identity
+      let isNone := match oc with | .none => true | _ => false
+      let vals := match oc with | .call v => v | _ => []
+      let dflt := fun (k : String) =>
+        if k.startsWith "ld" && kv k == 0 then max 1 (kv ((k.drop 2).toString ++ "_nrows")) else kv k
+      let f := fun (k : String) =>
+        if isNone then dflt k
+        else match ((callNames name).zip vals).find? (·.1 == k) with | some p => p.2 | none => 0
       let nn := fun (k : String) => (f k).toNat
       let out := fun (x y A B C : Buf) (v : String) => s!"ok x={showBuf x} y={showBuf y} A={showBuf A} B={showBuf B} C={showBuf C}{v}"
       let r : String :=
